@@ -67,6 +67,7 @@ int main(int argc, char **argv) {
   long start = argc > 4 ? atol(argv[4]) : 0;
   long cpu_s = argc > 5 ? atol(argv[5]) : 20;
   bool logpasses = argc > 6 && std::string(argv[6]).find('p') != std::string::npos;
+  bool tokensonly = argc > 6 && std::string(argv[6]).find('k') != std::string::npos;
   std::string passes;
   signal(SIGVTALRM, on_alarm);
   std::string line;
@@ -75,6 +76,12 @@ int main(int argc, char **argv) {
     if (g_index < start) continue;
     std::string src;
     if (!jfield(line, "id", g_id) || !jfield(line, "src", src)) continue;
+    if (tokensonly) {
+      std::ostringstream ts; std::string st = "ok";
+      try { hexasm::Lexer lx; lx.loadBuffer(src); lx.emitTokens(ts); } catch (const std::exception &) { st = "error"; }
+      fprintf(g_out, "{\"id\":\"%s\",\"idx\":%ld,\"status\":\"%s\",\"tokens\":\"%s\"}\n", jesc(g_id).c_str(), g_index, st.c_str(), jesc(ts.str()).c_str());
+      continue;
+    }
     struct itimerval tv = {{0, 0}, {cpu_s, 0}};
     setitimer(ITIMER_VIRTUAL, &tv, nullptr);
     std::string status = "ok", diag, listing;
